@@ -490,8 +490,22 @@ fn check_fixed(ti: usize, c: &Cfg) -> Vec<Viol> {
     match Deb822::from_str(&out_text) {
         Err(e) => out.push(viol("result-parses", ctx(&e.to_string().replace('\n', "; ")))),
         Ok(re) => {
-            if re.paragraphs().any(|p| p.items().count() > 0) {
-                out.push(viol("content-kept", ctx("a field appeared")));
+            // same paragraphs and fields (as multisets: the settings may reorder them), same non-blank value lines
+            let norm = |x: &Deb822, fmt: bool| -> Vec<PContent> {
+                let mut ps: Vec<PContent> = x
+                    .paragraphs()
+                    .map(|p| {
+                        let mut q: PContent = p.items().map(|(k, v)| (k, if fmt { expected_lines(&v, c) } else { vlines(&v) })).collect();
+                        q.sort();
+                        q
+                    })
+                    .filter(|q| !q.is_empty())
+                    .collect();
+                ps.sort();
+                ps
+            };
+            if norm(&re, false) != norm(&d, true) {
+                out.push(viol("content-kept", ctx(&format!("content {:?}, expected {:?}", norm(&re, false), norm(&d, true)))));
             }
         }
     }
